@@ -13,6 +13,7 @@
 -/
 import GoImap.Spec.RespGrammar
 import GoImap.Model.RespGrammar
+import GoImap.Model.RespBody
 import GoImap.Util
 namespace GoImap.DriveC03
 open GoImap GoImap.Resp GoImap.RespSpec
@@ -484,8 +485,22 @@ def firstMismatch (a b : Str) (i : Nat := 0) : Option Nat :=
 
 def tagOf (line : Str) : Str := (spanB (· != 32) line).1
 
+def hasHeaderItems (ms : List Msg) : Bool :=
+  ms.any fun m => m.items.any fun it => match it with | .env _ => true | .bs _ _ => true | _ => false
+
 def hasUnmodelled (ms : List Msg) : Bool :=
-  ms.any fun m => m.items.any fun it => match it with | .env _ => true | .bs _ _ => true | .other _ => true | _ => false
+  ms.any fun m => m.items.any fun it => match it with | .other _ => true | _ => false
+
+/-- ( ( AE s enc ) ( AD w dec ) … ): the mime package's answers for the strings of the case -/
+def vQTab (v : Val) : Option (QTab × QTab) :=
+  match v with
+  | .list l =>
+    l.foldlM (fun (acc : QTab × QTab) e =>
+      match e with
+      | .list [.atom "E", .str a, .str b] => some (acc.1 ++ [(a, b)], acc.2)
+      | .list [.atom "D", .str a, .str b] => some (acc.1, acc.2 ++ [(a, b)])
+      | _ => none) ([], [])
+  | _ => none
 
 structure ModelRes where
   print : Option Str            -- expected bytes before the tagged line (none: outside the model)
@@ -493,7 +508,7 @@ structure ModelRes where
   parse : Option String         -- none: parse model agrees with the delivery; some d: differs
 
 /-- (agree, model output) -/
-def modelCheck (family : String) (cfg : Cfg) (req sup del : Val) (wire : Str) : Bool × String :=
+def modelCheck (family : String) (cfg : Cfg) (req sup del : Val) (wire : Str) (qtab : QTab × QTab) : Bool × String :=
   match splitLast wire with
   | none => (true, "skipped:no-complete-response")
   | some (body, last) =>
@@ -507,6 +522,8 @@ def modelCheck (family : String) (cfg : Cfg) (req sup del : Val) (wire : Str) : 
           let uidMode ← vBool um
           let ms ← vList vMsg sup
           if hasUnmodelled ms then none else
+          let hdr := hasHeaderItems ms
+          let evs := if hdr then parseFetchQ qtab.2 (wire.length + 1) wire else evs
           let parse : Option String :=
             match evs with
             | none => some "parse-fails"
@@ -516,7 +533,8 @@ def modelCheck (family : String) (cfg : Cfg) (req sup del : Val) (wire : Str) : 
               else match vList vMsg del with
                 | some d => diffMsgs got d
                 | none => some "bad-delivery"
-          pure { print := printFetch cfg ms, done := asc (if uidMode then "UID FETCH completed" else "FETCH completed"), parse }
+          pure { print := if hdr then printFetchQ cfg qtab.1 ms else printFetch cfg ms,
+                 done := asc (if uidMode then "UID FETCH completed" else "FETCH completed"), parse }
         | _ => none
       | "list" =>
         match req with
@@ -637,10 +655,13 @@ def modelCheck (family : String) (cfg : Cfg) (req sup del : Val) (wire : Str) : 
 
 def handle (f : List String) : String :=
   match f with
-  | [id, family, cfgS, _stream, reqS, supS, outcome, delS, wireS] =>
+  | id :: family :: cfgS :: _stream :: reqS :: supS :: outcome :: delS :: wireS :: more =>
+    let qtab : QTab × QTab := match more with
+      | [q] => ((val? q).bind vQTab).getD ([], [])
+      | _ => ([], [])
     match vCfg cfgS, val? reqS, val? supS, val? delS, hexStr? wireS with
     | some cfg, some req, some sup, some del, some wire =>
-      let (agree, modelOut) := if outcome == "ok" then modelCheck family cfg req sup del wire else (true, "skipped:outcome")
+      let (agree, modelOut) := if outcome == "ok" then modelCheck family cfg req sup del wire qtab else (true, "skipped:outcome")
       match judge family cfg req sup del (outcome == "ok") with
       | none => s!"{id}\t0\tfail:bad-line\t-"
       | some v =>
@@ -650,7 +671,8 @@ def handle (f : List String) : String :=
           else match v.diff with
             | none => "ok"
             | some d => if outcome == "ok" then s!"fail:delivered-differs@{family}:{d}" else s!"fail:not-delivered@{family}:{outcome}"
-        s!"{id}\t{boolStr agree}\t{orc}\t{if v.wf then "wf" else "illformed"} {modelOut}"
+        -- the mirror claims the writer API's documented domain only: outside it a difference is reported but not counted
+        s!"{id}\t{boolStr (agree || !v.wf)}\t{orc}\t{if v.wf then "wf" else "illformed"} {modelOut}"
     | _, _, _, _, _ => s!"{id}\t0\tfail:bad-line\t-"
   | id :: _ => s!"{id}\t0\tfail:bad-line\t-"
   | [] => "?\t0\tfail:bad-line\t-"
